@@ -61,8 +61,8 @@ inductive Pc where
   | creating (rest : List COp)          -- inside the creator                [hook BeforeSet if next is req]
   | innerSet (s : Nat) (rest : List COp) -- inside the creator, inside request_reload after the set [hook AfterSet]
   | created                             -- creator returned Ok, env stored   [hook AfterCreate]
-  | cleared                             -- templates cleared
-  | failed                              -- creator returned Err
+  | cleared                             -- templates cleared                 [hook AfterClear]
+  | failed                              -- creator returned Err              [hook BeforeRemark]
   | remarked                            -- flag set again after the failure
   | holding                             -- `Ok(guard)` returned, guard alive
   deriving DecidableEq, Repr
@@ -157,6 +157,8 @@ structure State where
   onCalls : Nat := 0              -- invocations of the on_should_reload callback
   -- ghost logs
   sets : List Nat := []           -- clock of every `should_reload = true` done by request_reload
+  risings : Nat := 0              -- ghost: how many of those found the flag down (false → true); a burst of
+                                  -- requests between two reload checks raises the flag once
   reqLog : List ReqRec := []
   acqLog : List AcqRec := []
   deriving Repr
@@ -205,6 +207,7 @@ def stepActive (σ : State) (c : Active) : Option State :=
                   cur := some { c with pc := .creating c.cfg.script, buildStart := t } }
   | .creating (.req :: rest) =>
     some { σ with now := t + 1, flag := true, sets := t :: σ.sets,
+                  risings := if σ.flag then σ.risings else σ.risings + 1,
                   cur := some { c with pc := .innerSet t rest } }
   | .innerSet s rest =>
     some { σ with now := t + 1, reqLog := ⟨s, t, c.tid⟩ :: σ.reqLog, onCalls := σ.onCalls + 1,
@@ -272,7 +275,9 @@ def step (σ : State) (i : Nat) : Option State :=
     | some c => if c.tid = i then stepActive σ c else none
     | none => none
   | some .reqIdle =>
-    some { σ with now := t + 1, flag := true, sets := t :: σ.sets, threads := σ.threads.set i (.reqSet t) }
+    some { σ with now := t + 1, flag := true, sets := t :: σ.sets,
+                  risings := if σ.flag then σ.risings else σ.risings + 1,
+                  threads := σ.threads.set i (.reqSet t) }
   | some (.reqSet s) =>
     some { σ with now := t + 1, reqLog := ⟨s, t, i⟩ :: σ.reqLog, onCalls := σ.onCalls + 1,
                   threads := σ.threads.set i .reqDone }
@@ -338,6 +343,8 @@ def atYield (σ : State) (i : Nat) : Bool :=
       if c.tid = i then
         match c.pc with
         | .checked _ | .reset | .toCreate | .created | .holding => true
+        | .cleared => true             -- [hook AfterClear]
+        | .failed => true              -- [hook BeforeRemark: keep_reload_pending is about to look the notifier up]
         | .locked => σ.env.isSome      -- `should_reload()` is only called when an env is cached
         | .creating (.req :: _) => true
         | .innerSet _ _ => true
@@ -357,6 +364,7 @@ def pointName (σ : State) (i : Nat) : String :=
       | .locked => "BeforeCheck"
       | .checked _ => "AfterCheck" | .reset => "AfterReset" | .toCreate => "BeforeCreate"
       | .created => "AfterCreate" | .holding => "Holding"
+      | .cleared => "AfterClear" | .failed => "BeforeRemark"
       | .creating (.req :: _) => "BeforeSet" | .innerSet _ _ => "AfterSet"
       | _ => "?"
     | none => "?"
